@@ -195,3 +195,8 @@ def nontrivial(h):
     upd = any(ln.startswith('updr p ') or (ln.startswith('upd p ') and ('op=or' in ln or 'op=and' in ln)) for ln in h)
     other = any(ln.split()[0] in ('bop', 'inv', 'write', 'scov', 'fracdet', 'copy') for ln in h)
     return upd and other
+
+
+def must_reject(line):
+    """C05: the packed array must reject what the numpy twin rejects (array-level ops)"""
+    return line.startswith('p.')
